@@ -147,6 +147,12 @@ CLAIMED["C18"] = _p("TLC enumerates the literal space (integers by magnitude cla
                     "bank name, tree name, column name). The model job logs the exact text of every scalar it writes, the bank strings it asks for and the names it books; "
                     "TLC requires them to equal the literal (or the literal to be refused when it is not representable).", "DESIGN.md section 5 C18")
 
+CLAIMED["C10"] = _p("The universe table declares a signature space on the model classes - object returned by value / pointer / double pointer, collection by value and by "
+                    "pointer, collections of objects, smart references needing 1 and 2 extra dereferences (deref_count), a scalar type with a declared tree type, an enum "
+                    "(as output, in a comparison with a qualified value, as an argument) - and the model C++ classes are generated from the very same table, so the C++ "
+                    "compiler judges every '.', '->', '(*x)->' the translator emits. TLC enumerates all call chains / uses over these methods; compile result, values, "
+                    "column types and the 'assuming double' warning (logged iff an undeclared method is called) are validated by TLC.", "DESIGN.md section 5 C10")
+
 PENDING = "check not built yet in this round (planned, see DESIGN.md section 11); not claimed until its machinery exists"
 
 
